@@ -200,6 +200,23 @@ func cmdCheck(args []string) int {
 		}
 	}
 
+	// vacuity: every reachability witness of an entry must be satisfiable in at least one of its jobs
+	reach := map[string]bool{}
+	for _, o := range outs {
+		if o.res == nil {
+			continue
+		}
+		for l, r := range o.res.Reach {
+			k := o.job.Entry + ": " + l
+			reach[k] = reach[k] || r == "reachable"
+		}
+	}
+	for k, ok := range reach {
+		if !ok {
+			inconclusive = append(inconclusive, "reachability witness unsatisfiable (vacuous harness?): "+k)
+		}
+	}
+
 	// native replays: witnesses (translator validation) and counterexamples
 	var rq []replayReq
 	for _, o := range outs {
